@@ -14,6 +14,7 @@ from vf import gen as G, oracle as O, props as P, snapshot as S
 from vf.checks.common import Case, call, exc_text
 
 ID = "C15"
+TECHNIQUE = "runtime monitoring: post-conditions on JordanCurve.split / clean (external and internal calls) against exact snapshots"
 LEVEL = "exploration"
 RULE = ("(a) random closed curves (polygons int/Fraction/float, n-arc circles, Bezier blobs of degree 2-3, mixed-degree "
         "chains) x random multisets of (segment, parameter) pairs including repeated, nearly equal (1e-17..1e-5 apart), "
